@@ -50,6 +50,12 @@ CHECKS = {
  "C15": ("exploration", "complete enumeration of finite domains (table cells, ordered observation sequences) against a set-algebra reference model, on the real tables and through real build/map",
          "Every cell of both lookup tables, every letter of the classification/weight domains and every ordered sequence of <=4 observations are enumerated (exhaustive: true); the domains are finite so nothing is left to a bound.",
          "Trusts the harness's 15-entry code<->set bijection; U is outside the algebra.", "DESIGN.md §5 C15"),
+ "C17": ("exploration", "bounded exhaustive enumeration of planted-SNP families (site subsets on a 2k/2k+1 grid x allele assignments x orientations x reference mode x -m) through the CLI under owned hash seeds, vs planted truth; well-formedness family outside the premise",
+         "Every biallelic split for 3..5 samples, triallelic assignments, larger carrier patterns, every subset of a grid whose spacing sits exactly on the premise's boundary, with and without reference, for k up to 33 (the 64/128-bit boundary): completeness without reference, soundness with reference, well-formedness on every run.",
+         "One thread (thread counts and schedules are C11's); hash seeds 2 (quick) / 4 (thorough); release-profile arithmetic.", "DESIGN.md §5 C17"),
+ "C18": ("exploration", "bounded exhaustive enumeration of planted-indel families (lengths 1..10, every carrier set for 3..5 samples, 1..3 indels 4k apart) through the CLI; every record judged against the true sequences; recall over the family",
+         "Each record's before+REF/ALT+after must be a substring of exactly the samples genotyped for it; every carrier set (both polarities, ties included) and every length is enumerated, duplicates and unexplained records are violations, and recall is measured over the whole family (>= 90% required).",
+         "One thread; declared hash seeds; release-profile arithmetic (debug builds panic on a usize underflow for short deletion paths).", "DESIGN.md §5 C18"),
  "C19": ("fault_enumeration", "exhaustive single-fault enumeration (every truncation length, every single-bit flip) of real .skf files through the real loader and CLI",
          "Every one of the len + 8*len damaged images of six files (64/128-bit, one or several samples, one or several snappy frames, stored-uncompressed chunks, files written by delete) is loaded exactly as main does; each must be rejected or decode to the original content. The space is finite and enumerated completely.",
          "One fault per image; subject files are produced once per run by the real save so that all shards damage the same bytes.", "DESIGN.md §5 C19"),
